@@ -24,6 +24,7 @@ func astFacts(out io.Writer) {
 	dirs := []string{".", "server", "server/wrapped_http", "prover", "prover/keccak", "prover/poseidon", "logging", "poseidon_tree"}
 	type write struct{ pkg, v, fn string }
 	var vars [][2]string
+	var varKinds [][3]string // (package, name, "literal" | "other"): literal = initialised by basic literals only
 	var writes []write
 	var recvWrites [][3]string
 	var jsonCallers [][2]string
@@ -45,10 +46,16 @@ func astFacts(out io.Writer) {
 				for _, decl := range f.Decls {
 					if gd, ok := decl.(*ast.GenDecl); ok && gd.Tok == token.VAR {
 						for _, sp := range gd.Specs {
-							for _, n := range sp.(*ast.ValueSpec).Names {
+							vs := sp.(*ast.ValueSpec)
+							for k, n := range vs.Names {
 								if n.Name != "_" {
 									names[n.Name] = true
 									vars = append(vars, [2]string{pname, n.Name})
+									kind := "other"
+									if k < len(vs.Values) && literalData(vs.Values[k]) {
+										kind = "literal"
+									}
+									varKinds = append(varKinds, [3]string{pname, n.Name, kind})
 								}
 							}
 						}
@@ -174,6 +181,14 @@ func astFacts(out io.Writer) {
 		}
 		fmt.Fprintf(out, "(%q, %q)", v[0], v[1])
 	}
+	sort.Slice(varKinds, func(i, j int) bool { return varKinds[i][0]+varKinds[i][1] < varKinds[j][0]+varKinds[j][1] })
+	fmt.Fprintf(out, "]\n\n/-- (package, name, kind) of the same variables: kind is \"literal\" when the initialiser is a basic literal or a\nslice/array literal of basic literals (plain data), \"other\" for everything else (pools, maps, structs, calls, no initialiser) -/\ndef packageVarKinds : List (String × String × String) :=\n  [")
+	for i, v := range varKinds {
+		if i > 0 {
+			fmt.Fprint(out, ", ")
+		}
+		fmt.Fprintf(out, "(%q, %q, %q)", v[0], v[1], v[2])
+	}
 	fmt.Fprintf(out, "]\n\n/-- (package, variable, function) for every assignment to a package-level variable inside a function -/\ndef packageVarWrites : List (String × String × String) :=\n  [")
 	for i, w := range writes {
 		if i > 0 {
@@ -239,6 +254,26 @@ func astFacts(out io.Writer) {
 		fmt.Fprint(out, "])")
 	}
 	fmt.Fprintf(out, "]\n\n")
+}
+
+// literalData: a basic literal, or a slice/array composite literal (not a map, not a struct) whose
+// elements are all basic literals.
+func literalData(e ast.Expr) bool {
+	switch t := e.(type) {
+	case *ast.BasicLit:
+		return true
+	case *ast.CompositeLit:
+		if _, ok := t.Type.(*ast.ArrayType); !ok {
+			return false
+		}
+		for _, el := range t.Elts {
+			if _, ok := el.(*ast.BasicLit); !ok {
+				return false
+			}
+		}
+		return true
+	}
+	return false
 }
 
 func callString(e ast.Expr) string {
